@@ -14,11 +14,23 @@ package oauth
 //     keyed with a public key, none, EdDSA, mismatches), kid (right, wrong, unknown, absent, numeric),
 //     tampering, iss, aud, exp, nbf, jti, user claims, malformed encodings.
 //
-// Oracle (model-free, computed from the recipe and the harness's own clock/revocation bookkeeping):
-//   accepted ⇒ well-formed ∧ alg ∈ {RS*,ES*} ∧ signature made, untampered, by a key published for
-//              signatures ∧ iss ∧ aud ∧ nbf ≤ now < exp ∧ jti not revoked now
-//   all of that with the kid selecting the signer ∧ a user claim ⇒ accepted with that user.
-// Correspondence: the same history as protocol lines for `egodriver C22`.
+// The identity provider is NOT static: a history may replace the JWKS document it serves (publish, withdraw,
+// rotate under the same kid, reorder, serve a document without any usable key) and lets the virtual clock run
+// past the configured JWKS cache TTL, so that the real jwksCache / keyByID TTL refresh and the unknown-kid
+// cooldown decide which key set a token is verified against.
+//
+// Oracle (model-free, computed from the recipe and the harness's own clock/revocation/provider bookkeeping):
+//   accepted ⇒ well-formed ∧ alg ∈ {RS*,ES*} ∧ signature made, untampered, by a key the provider has published
+//              for signatures ∧ iss ∧ aud ∧ nbf ≤ now < exp ∧ jti not revoked now
+//            ∧ the verifying key is TRUSTWORTHY NOW: it is in the provider's current document, or it was withdrawn
+//              less than one JWKS TTL ago (the staleness keyByID allows: a cached key set is used while
+//              age < ttl, so a key withdrawn at w can be honoured only while now − w < ttl), or this very token
+//              string still has a live entry in the JWT result cache (it was accepted before and no eviction /
+//              purge of that entry has been observed since — cache hits are not re-verified, by design)
+//   all of that with the kid selecting the signer in every document served during the last TTL ∧ a user claim
+//              ⇒ accepted with that user.
+// Correspondence: the same history as protocol lines for `egodriver C22` (key-set changes as `keys` lines, the
+// observed evictions of the JWT result cache as `evict` lines).
 
 import (
 	"bytes"
@@ -40,6 +52,7 @@ import (
 	"path/filepath"
 	"sort"
 	"strings"
+	"sync"
 	"testing"
 	"testing/synctest"
 	"time"
@@ -488,6 +501,52 @@ func c22GenLayout(r *rand.Rand) []c22Jwk {
 	}
 }
 
+func c22Usable(layout []c22Jwk) bool {
+	for _, j := range layout {
+		if j.usable() {
+			return true
+		}
+	}
+
+	return false
+}
+
+// c22MutateLayout: the next document the provider serves, derived from the documents served so far.
+func c22MutateLayout(r *rand.Rand, all [][]c22Jwk) []c22Jwk {
+	pub := []string{"rsaA", "rsaB", "ecA", "ecB", "ec384", "ec521"}
+	lay := append([]c22Jwk{}, all[len(all)-1]...)
+
+	switch x := r.Intn(24); {
+	case x < 9 && len(lay) > 0: // withdraw one key
+		i := r.Intn(len(lay))
+		lay = append(lay[:i:i], lay[i+1:]...)
+	case x < 12: // publish one more key under a new kid, first or last in the document
+		j := c22Jwk{key: c22Key4(pub[r.Intn(len(pub))]), kid: fmt.Sprintf("n%d", len(all))}
+		if r.Intn(2) == 0 {
+			lay = append([]c22Jwk{j}, lay...)
+		} else {
+			lay = append(lay, j)
+		}
+	case x < 16 && len(lay) > 0: // rotate: other key material under the same kid
+		i := r.Intn(len(lay))
+		lay[i].key = c22Key4(pub[r.Intn(len(pub))])
+		lay[i].broken = ""
+	case x < 18 && len(lay) > 1: // the same keys in another order (the first one serves tokens without kid)
+		i := 1 + r.Intn(len(lay)-1)
+		lay[0], lay[i] = lay[i], lay[0]
+	case x < 20 && len(all) > 1: // an earlier document comes back
+		lay = append([]c22Jwk{}, all[r.Intn(len(all)-1)]...)
+	case x < 22: // a wholly different document
+		lay = c22GenLayout(r)
+	case x < 23: // a document without any usable signature key (refreshJWKS: ErrJWKSNoKeys)
+		lay = []c22Jwk{{key: c22Key4("rsaB"), kid: "enc-only", use: "enc"}}
+	default: // {"keys":[]}
+		lay = []c22Jwk{}
+	}
+
+	return lay
+}
+
 var (
 	c22JTIs  = []string{"", "jti-1", "jti-2", "jti-3", "jti-4"}
 	c22Exps  = []int64{-3600, -1, 0, 1, 7, 30, 59, 61, 100, 100, 250, 250, 900, 900, 4000}
@@ -670,15 +729,17 @@ func c22CleanRecipe(r *rand.Rand, layout []c22Jwk) c22Recipe {
 // ---------------------------------------------------------------- histories
 
 type c22Op struct {
-	kind string // p rev unrev flush adv advto purge
+	kind string // p rev unrev flush adv advto purge keys
 	tok  int
 	jti  string
 	dt   int
+	lay  int // keys: index into c22History.layouts of the document the provider serves from now on
 }
 
 type c22History struct {
 	name      string
-	layout    []c22Jwk
+	layout    []c22Jwk   // the document served when the server starts (= layouts[0] when layouts is set)
+	layouts   [][]c22Jwk // every document the provider serves in this history
 	cfgAud    string
 	userClaim string
 	jwtTTL    int
@@ -697,10 +758,33 @@ func c22GenHistory(r *rand.Rand, name string) c22History {
 	h.userClaim = []string{"sub", "sub", "email", "preferred_username", "nickname"}[r.Intn(5)]
 	h.jwtTTL = []int{20, 90, 90, 3600}[r.Intn(4)]
 	h.jwksTTL = []int{45, 120, 3600}[r.Intn(3)]
+	h.layouts = [][]c22Jwk{h.layout}
+
+	// two histories in five: the provider changes its document one to three times
+	rot := r.Intn(5) < 2
+	if rot {
+		h.jwksTTL = []int{45, 45, 120, 120, 3600}[r.Intn(5)]
+
+		for k := 1 + r.Intn(3); k > 0; k-- {
+			h.layouts = append(h.layouts, c22MutateLayout(r, h.layouts))
+		}
+	}
+
+	// tokens are made for any of the documents (a key not yet published, a key withdrawn later, …)
+	var made [][]c22Jwk
+
+	for _, l := range h.layouts {
+		if c22Usable(l) {
+			made = append(made, l)
+		}
+	}
 
 	nt := 3 + r.Intn(6)
+	recipeLayout := make([][]c22Jwk, nt)
+
 	for i := 0; i < nt; i++ {
-		h.recipes = append(h.recipes, c22GenRecipe(r, h.layout, h.cfgAud))
+		recipeLayout[i] = made[r.Intn(len(made))]
+		h.recipes = append(h.recipes, c22GenRecipe(r, recipeLayout[i], h.cfgAud))
 	}
 
 	// mostly-valid bias: half of the tokens are clean (usable signer, matching kid, natural method, good
@@ -711,7 +795,7 @@ func c22GenHistory(r *rand.Rand, name string) c22History {
 		}
 
 		hr := h.recipes[i]
-		rc := c22CleanRecipe(r, h.layout)
+		rc := c22CleanRecipe(r, recipeLayout[i])
 
 		if r.Intn(2) == 0 {
 			switch r.Intn(11) {
@@ -751,8 +835,24 @@ func c22GenHistory(r *rand.Rand, name string) c22History {
 		h.recipes[i] = rc
 	}
 
+	steps := c22Steps
+	if rot {
+		steps = append(append([]int{}, c22Steps...), h.jwksTTL-1, h.jwksTTL, h.jwksTTL+1, h.jwksTTL+1, h.jwksTTL-29, h.jwksTTL/2)
+	}
+
 	n := 12 + r.Intn(30)
+
+	// the document changes happen in order, at random places of the history
+	keysAt := map[int]int{}
+	for k := 1; k < len(h.layouts); k++ {
+		keysAt[(k*n)/len(h.layouts)-r.Intn(1+n/(2*len(h.layouts)))] = k
+	}
+
 	for i := 0; i < n; i++ {
+		if k, ok := keysAt[i]; ok {
+			h.ops = append(h.ops, c22Op{kind: "keys", lay: k})
+		}
+
 		switch x := r.Intn(100); {
 		case x < 58:
 			h.ops = append(h.ops, c22Op{kind: "p", tok: r.Intn(nt)})
@@ -770,7 +870,7 @@ func c22GenHistory(r *rand.Rand, name string) c22History {
 		case x < 77:
 			h.ops = append(h.ops, c22Op{kind: "flush"})
 		case x < 88:
-			h.ops = append(h.ops, c22Op{kind: "adv", dt: c22Steps[r.Intn(len(c22Steps))]})
+			h.ops = append(h.ops, c22Op{kind: "adv", dt: steps[r.Intn(len(steps))]})
 		case x < 94:
 			h.ops = append(h.ops, c22Op{kind: "advto", tok: r.Intn(nt), dt: r.Intn(3) - 1}) // to exp-1 / exp / exp+1 (or nbf)
 		default:
@@ -803,7 +903,50 @@ func c22Corpus() []c22History {
 		return h
 	}
 
-	return []c22History{
+	// ---- the provider changes its document (jwksTTL 120 s, JWT result cache 90 s)
+	ec := func(name, kid string) c22Jwk { return c22Jwk{key: c22Key4(name), kid: kid} }
+	docA := []c22Jwk{ec("ecA", "a1"), ec("rsaA", "r1")}
+	docB := []c22Jwk{ec("rsaA", "r1"), ec("ecB", "b1")}          // a1 withdrawn, b1 published
+	docA2 := []c22Jwk{ec("ec384", "a1"), ec("rsaA", "r1")}       // a1 rotated to other key material
+	docNone := []c22Jwk{{key: c22Key4("rsaB"), kid: "enc1", use: "enc"}}
+	long := func(rc c22Recipe) c22Recipe { rc.exp = 4000; return rc }
+	keys := func(i int) c22Op { return c22Op{kind: "keys", lay: i} }
+	mkr := func(name string, docs [][]c22Jwk, rcs []c22Recipe, ops ...c22Op) c22History {
+		h := base
+		h.name, h.layout, h.layouts, h.recipes, h.ops = name, docs[0], docs, rcs, ops
+
+		return h
+	}
+	nokid := func(rc c22Recipe) c22Recipe { rc.kid = nil; return rc }
+
+	rotation := []c22History{
+		// a key is withdrawn; tokens made with it stay acceptable for less than one JWKS TTL, then never again
+		mkr("withdrawn-key-jwks-ttl", [][]c22Jwk{docA, docB}, []c22Recipe{
+			long(good("ecA", "ES256", "a1", "jti-1")), long(good("ecA", "ES256", "a1", "jti-2")),
+			long(good("ecA", "ES256", "a1", "jti-3")), long(good("rsaA", "RS256", "r1", "jti-4")),
+		}, p(0), keys(1), adv(119), p(1), adv(1), p(2), p(3), adv(200), p(0), p(1), p(2), p(3)),
+		mkr("withdrawn-key-never-seen-token", [][]c22Jwk{docA, docB}, []c22Recipe{
+			long(good("ecA", "ES256", "a1", "jti-1")), long(good("ecA", "ES256", "a1", "")), long(good("rsaA", "RS256", "r1", "")),
+		}, p(0), p(2), keys(1), adv(60), p(2), adv(60), p(2), adv(1), p(1), p(2), p(0)),
+		// a new kid appears: one refresh, then the cooldown, then the TTL
+		mkr("published-key-unknown-kid", [][]c22Jwk{docA, docB, docA}, []c22Recipe{
+			long(good("ecB", "ES256", "b1", "jti-1")), long(good("ecA", "ES256", "a1", "jti-2")), long(good("ecB", "ES256", "b1", "jti-3")),
+		}, p(0), keys(1), p(0), p(1), keys(2), p(1), adv(29), p(1), adv(2), p(1), p(2), adv(120), p(2), p(0)),
+		// other key material under the same kid
+		mkr("rotated-under-same-kid", [][]c22Jwk{docA, docA2}, []c22Recipe{
+			long(good("ecA", "ES256", "a1", "jti-1")), long(good("ec384", "ES384", "a1", "jti-2")), long(good("ecA", "ES256", "a1", "jti-3")),
+		}, p(0), p(1), keys(1), p(1), adv(119), p(1), p(2), adv(1), p(1), p(2), p(0)),
+		// the provider serves a document without usable keys: the refresh fails, nothing with a kid verifies after the TTL
+		mkr("document-without-keys", [][]c22Jwk{docA, docNone, docB}, []c22Recipe{
+			long(good("ecA", "ES256", "a1", "jti-1")), long(good("rsaA", "RS256", "r1", "jti-2")), long(good("ecB", "ES256", "b1", "jti-3")),
+		}, p(0), keys(1), adv(121), p(0), p(1), keys(2), p(1), p(2), p(0)),
+		// tokens WITHOUT kid are verified with the first cached key whatever the age of the cache
+		mkr("withdrawn-key-token-without-kid", [][]c22Jwk{docA, docB}, []c22Recipe{
+			long(nokid(good("ecA", "ES256", "", "jti-1"))), long(nokid(good("ecA", "ES256", "", "jti-2"))), long(nokid(good("rsaA", "RS256", "", "jti-3"))),
+		}, p(0), keys(1), adv(121), p(1), p(2), adv(200), p(0)),
+	}
+
+	return append(rotation,
 		// the defect of the design round: revoked before it was ever presented
 		mk("revoked-before-first-seen", []c22Recipe{good("ecA", "ES256", "e1", "jti-1")}, rev("jti-1"), p(0), p(0)),
 		mk("revoke-then-unrevoke", []c22Recipe{good("rsaA", "RS256", "r1", "jti-1")}, p(0), rev("jti-1"), p(0), p(0),
@@ -852,7 +995,7 @@ func c22Corpus() []c22History {
 			with(good("ecA", "ES256", "e1", ""), func(r *c22Recipe) { r.tamper = "payload"; r.sub = "bob" }),
 			with(good("ecA", "ES256", "e1", ""), func(r *c22Recipe) { r.iat = 5000 }),
 		}, p(0), p(1), p(2), p(3), p(4), p(5), p(6), p(7), p(8), p(5)),
-	}
+	)
 }
 
 // ---------------------------------------------------------------- running a history
@@ -864,6 +1007,33 @@ type c22Run struct {
 	ids   map[string]int
 	seen  map[string]bool
 	nfail int
+
+	// evictions of JWT result cache entries reported by the real cache (caches.SetOnEvict): expiry sweeps
+	// and Delete calls
+	evMu    sync.Mutex
+	evicted []string
+}
+
+func (x *c22Run) onEvict(id int, key any, _ any) {
+	if id != caches.OAuthJWTCache {
+		return
+	}
+
+	if s, ok := key.(string); ok {
+		x.evMu.Lock()
+		x.evicted = append(x.evicted, s)
+		x.evMu.Unlock()
+	}
+}
+
+func (x *c22Run) takeEvicted() []string {
+	x.evMu.Lock()
+	defer x.evMu.Unlock()
+
+	e := x.evicted
+	x.evicted = nil
+
+	return e
 }
 
 func (x *c22Run) intern(s string) int {
@@ -927,7 +1097,13 @@ func c22ExpectedUser(claim string, rc c22Recipe) string {
 func (x *c22Run) history(t *testing.T, h c22History, db string) {
 	defer c22Drain()
 
-	doc := c22JWKSDoc(h.layout)
+	if h.layouts == nil {
+		h.layouts = [][]c22Jwk{h.layout}
+	}
+
+	// the identity provider: serves the current document from memory
+	curLayout := h.layouts[0]
+	doc := c22JWKSDoc(curLayout)
 	idpClient = &http.Client{Transport: c22RT{body: func() []byte { return doc }}}
 
 	// a clean server: what Initialize() sets up, minus the network discovery
@@ -950,12 +1126,15 @@ func (x *c22Run) history(t *testing.T, h c22History, db string) {
 	}
 
 	_ = caches.SetExpiration(caches.OAuthJWTCache, fmt.Sprintf("%ds", h.jwtTTL))
+	x.takeEvicted()
 
 	t0 := time.Now().Unix()
 	toks := make([]*c22Tok, len(h.recipes))
+	tokOf := map[string]*c22Tok{}
 
 	for i, rc := range h.recipes {
 		toks[i] = c22Build(i+1, rc, t0, h.cfgAud, h.layout)
+		tokOf[toks[i].raw] = toks[i]
 	}
 
 	// model line: init
@@ -964,29 +1143,80 @@ func (x *c22Run) history(t *testing.T, h c22History, db string) {
 		claimCode = "o"
 	}
 
-	var keyFields []string
-	for _, j := range h.layout {
-		keyFields = append(keyFields, fmt.Sprintf("%d:%s:%s:%d", x.intern(j.kid), c22B(j.use == "" || j.use == "sig"),
-			c22B(j.broken == "" && j.key.kind != "ed"), j.key.mat))
+	keyFields := func(layout []c22Jwk) string {
+		var f []string
+		for _, j := range layout {
+			f = append(f, fmt.Sprintf("%d:%s:%s:%d", x.intern(j.kid), c22B(j.use == "" || j.use == "sig"),
+				c22B(j.broken == "" && j.key.kind != "ed"), j.key.mat))
+		}
+
+		return strings.Join(f, " ")
 	}
 
 	fixed := "1" // the model of the code with fixes/C22.patch
 
-	x.cases.Write(verifh.Case{In: fmt.Sprintf("init %d %s %s %s %s", t0, c22B(h.cfgAud != ""), claimCode, fixed, strings.Join(keyFields, " ")),
-		Impl: "-", Desc: h.name})
+	x.cases.Write(verifh.Case{In: strings.TrimSpace(fmt.Sprintf("init %d %s %s %s %d %s", t0, c22B(h.cfgAud != ""), claimCode, fixed, h.jwksTTL,
+		keyFields(curLayout))), Impl: "-", Desc: h.name})
+
+	// ---------------- the provider's publication record (ground truth of the harness, per key material)
+	pubNow := map[int]bool{}       // published for signatures in the document served now
+	everPub := map[int]bool{}      // … in some document served so far
+	withdrawnAt := map[int]int64{} // instant of the document change that withdrew it (while !pubNow)
+	rotated := false
+
+	type served struct {
+		from   int64
+		layout []c22Jwk
+	}
+
+	docs := []served{{t0, curLayout}}
+
+	for _, j := range curLayout {
+		if j.usable() {
+			pubNow[j.key.mat], everPub[j.key.mat] = true, true
+		}
+	}
+
+	// does the kid of the token select its signer in this document (first usable entry with that kid; without
+	// a kid the first usable entry)?
+	picks := func(layout []c22Jwk, tk *c22Tok) bool {
+		for _, j := range layout {
+			if j.usable() && (tk.kidStr == "" || j.kid == tk.kidStr) {
+				return tk.sigMat != 0 && j.key.mat == tk.sigMat
+			}
+		}
+
+		return false
+	}
+
+	inCache := map[int]bool{} // the token string was accepted and no eviction/purge of its result-cache entry was seen since
+
+	// the evictions the real cache reported since the last call: tell the model, forget the entries
+	flushEvictions := func() {
+		for _, raw := range x.takeEvicted() {
+			if tk := tokOf[raw]; tk != nil {
+				inCache[tk.id] = false
+				x.cases.Write(verifh.Case{In: fmt.Sprintf("evict %d", tk.id), Impl: "-"})
+				x.stats.Inc("op.evicted")
+			}
+		}
+	}
 
 	revoked := map[string]bool{}
 	accepted := map[int]bool{} // token accepted at least once before in this history
 	var trace []string
 
-	describe := func() string {
+	showLayout := func(layout []c22Jwk) string {
 		var ks []string
-		for _, j := range h.layout {
+		for _, j := range layout {
 			ks = append(ks, fmt.Sprintf("%s(kid=%q use=%q %s)", j.key.name, j.kid, j.use, j.broken))
 		}
 
-		return fmt.Sprintf("history %s aud=%q userClaim=%s jwtTTL=%ds jwksTTL=%ds jwks=[%s] ops: %s", h.name, h.cfgAud, h.userClaim,
-			h.jwtTTL, h.jwksTTL, strings.Join(ks, " "), strings.Join(trace, "; "))
+		return "[" + strings.Join(ks, " ") + "]"
+	}
+	describe := func() string {
+		return fmt.Sprintf("history %s aud=%q userClaim=%s jwtTTL=%ds jwksTTL=%ds jwks=%s ops: %s", h.name, h.cfgAud, h.userClaim,
+			h.jwtTTL, h.jwksTTL, showLayout(h.layouts[0]), strings.Join(trace, "; "))
 	}
 	fail := func(class, what, got, want string) {
 		x.nfail++
@@ -1046,9 +1276,38 @@ func (x *c22Run) history(t *testing.T, h c22History, db string) {
 			synctest.Wait()
 			x.cases.Write(verifh.Case{In: fmt.Sprintf("adv %d", dt), Impl: "-"})
 			x.stats.Inc("op.advance")
+			flushEvictions() // what the expiry sweeps removed while the clock ran
+		case "keys":
+			now := time.Now().Unix()
+			curLayout = h.layouts[op.lay]
+			doc = c22JWKSDoc(curLayout)
+			rotated = true
+			docs = append(docs, served{now, curLayout})
+			trace = append(trace, fmt.Sprintf("provider-serves@+%ds %s", now-t0, showLayout(curLayout)))
+
+			was := pubNow
+			pubNow = map[int]bool{}
+
+			for _, j := range curLayout {
+				if j.usable() {
+					pubNow[j.key.mat], everPub[j.key.mat] = true, true
+				}
+			}
+
+			for m := range was {
+				if !pubNow[m] {
+					withdrawnAt[m] = now
+				}
+			}
+
+			x.cases.Write(verifh.Case{In: strings.TrimSpace("keys " + keyFields(curLayout)), Impl: "-"})
+			x.stats.Inc("op.keys")
 		case "purge":
 			trace = append(trace, "purge-jwt-cache")
 			caches.Purge(caches.OAuthJWTCache)
+			x.takeEvicted()
+
+			inCache = map[int]bool{}
 			x.cases.Write(verifh.Case{In: "purge", Impl: "-"})
 			x.stats.Inc("op.purge")
 		case "p":
@@ -1077,36 +1336,36 @@ func (x *c22Run) history(t *testing.T, h c22History, db string) {
 				x.intern(rc.sub), x.intern(rc.email), x.intern(rc.pref), x.intern(rc.clientID)), Impl: impl})
 			x.stats.Inc("op.present")
 
-			// ---------------- direct oracle (property level; no model)
-			publishedForSig := false // the signature was made by key material published for signature use
-			kidPicksSigner := false  // …and the header's kid selects exactly that entry
-
-			var first *c22Jwk
-
-			for i := range h.layout {
-				j := h.layout[i]
-				if !j.usable() {
-					continue
-				}
-
-				if first == nil {
-					first = &h.layout[i]
-				}
-
-				if tk.sigMat != 0 && j.key.mat == tk.sigMat {
-					publishedForSig = true
+			// the entry ValidateJWT itself deleted (expired / revoked) is gone, whatever follows
+			for _, raw := range x.takeEvicted() {
+				if e := tokOf[raw]; e != nil {
+					inCache[e.id] = false
 				}
 			}
 
-			if tk.kidStr == "" {
-				kidPicksSigner = first != nil && tk.sigMat != 0 && first.key.mat == tk.sigMat
-			} else {
-				for _, j := range h.layout {
-					if j.usable() && j.kid == tk.kidStr {
-						kidPicksSigner = tk.sigMat != 0 && j.key.mat == tk.sigMat
+			// ---------------- direct oracle (property level; no model)
+			// the signature was made by key material the provider has published for signature use at some moment
+			publishedForSig := tk.sigMat != 0 && everPub[tk.sigMat]
 
-						break
-					}
+			// …and that key is trustworthy NOW: in the document served now, or withdrawn less than one JWKS TTL
+			// ago (keyByID uses a cached key set only while age < ttl, and the set was fetched before the
+			// withdrawal), or this token string still has its entry in the JWT result cache
+			keyCurrent := publishedForSig && (pubNow[tk.sigMat] || now-withdrawnAt[tk.sigMat] < int64(h.jwksTTL))
+			keyTrusted := keyCurrent || inCache[tk.id]
+
+			// the header's kid selects exactly the signer in every document a conforming server may be using:
+			// those served during the last TTL (tokens without kid: the code never re-fetches for them, so
+			// every document served so far)
+			kidPicksSigner := true
+
+			for i, d := range docs {
+				until := now
+				if i+1 < len(docs) {
+					until = docs[i+1].from
+				}
+
+				if (tk.kidStr == "" || until >= now-int64(h.jwksTTL)) && !picks(d.layout, tk) {
+					kidPicksSigner = false
 				}
 			}
 
@@ -1119,6 +1378,7 @@ func (x *c22Run) history(t *testing.T, h c22History, db string) {
 				{tk.parseOK, "accept-malformed", "a malformed token was accepted"},
 				{tk.fam != "o", "accept-alg", "a token whose header alg is not RS*/ES* was accepted"},
 				{publishedForSig, "accept-bad-signature", "a token whose signature was not made (intact, with the header's alg) by a key published for signatures was accepted"},
+				{!publishedForSig || keyTrusted, "accept-withdrawn-key", "a token was accepted (not from the JWT result cache) on the signature of a key the provider withdrew at least one JWKS cache TTL ago"},
 				{tk.issOK, "accept-iss", "a token with the wrong issuer was accepted"},
 				{h.cfgAud == "" || tk.audOK, "accept-aud", "a token without the configured audience was accepted"},
 				{now < tk.exp, "accept-expired", "an expired token (or one without exp) was accepted"},
@@ -1137,6 +1397,10 @@ func (x *c22Run) history(t *testing.T, h c22History, db string) {
 				for _, c := range conds {
 					if !c.ok {
 						class := c.class
+						if class == "accept-withdrawn-key" && tk.kidStr == "" {
+							class = "accept-withdrawn-key-token-without-kid"
+						}
+
 						if class == "accept-revoked" {
 							if accepted[tk.id] {
 								class = "accept-revoked-seen-before"
@@ -1165,7 +1429,16 @@ func (x *c22Run) history(t *testing.T, h c22History, db string) {
 
 			if err == nil {
 				accepted[tk.id] = true
+				inCache[tk.id] = true
 				x.stats.Inc("present.accepted")
+
+				if rotated {
+					x.stats.Inc("present.accepted-after-document-change")
+
+					if !pubNow[tk.sigMat] {
+						x.stats.Inc("present.accepted-withdrawn-key-within-allowance")
+					}
+				}
 			} else {
 				x.stats.Inc("present." + impl)
 			}
@@ -1180,8 +1453,19 @@ func (x *c22Run) history(t *testing.T, h c22History, db string) {
 					}
 				}
 
-				key := fmt.Sprintf("%s|fam=%s|kid=%v|pick=%v|seen=%v|boundary=%v|nbf=%v|aud=%v|claim=%s|user=%v", failing, tk.fam, tk.kidStr != "",
-					kidPicksSigner, accepted[tk.id], now == tk.exp || now == tk.exp-1, tk.nbf != 0, h.cfgAud != "", h.userClaim, want != "")
+				keyState := "never"
+				switch {
+				case !publishedForSig:
+				case pubNow[tk.sigMat]:
+					keyState = "current"
+				case keyCurrent:
+					keyState = "withdrawn<ttl"
+				default:
+					keyState = "withdrawn>=ttl"
+				}
+
+				key := fmt.Sprintf("%s|fam=%s|kid=%v|pick=%v|seen=%v|boundary=%v|nbf=%v|aud=%v|claim=%s|user=%v|key=%s|rot=%v", failing, tk.fam, tk.kidStr != "",
+					kidPicksSigner, accepted[tk.id], now == tk.exp || now == tk.exp-1, tk.nbf != 0, h.cfgAud != "", h.userClaim, want != "", keyState, rotated)
 				if !x.seen[key] {
 					x.seen[key] = true
 					x.stats.Inc("distinct_nontrivial")
@@ -1233,7 +1517,11 @@ func TestVerifC22(t *testing.T) {
 
 	savedClient := idpClient
 
+	caches.SetOnEvict(x.onEvict)
+
 	defer func() {
+		caches.SetOnEvict(nil)
+
 		idpClient = savedClient
 		tokens.Close()
 		_ = tokens.SetDatabasePath("")
